@@ -293,6 +293,7 @@ func TestC16(t *testing.T) {
 				}
 			}
 		}
+		r.Observe("delivery outcome", fmt.Sprintf("%s %s: transmissions REGISTER=%d PUBLISH=%d PUBREL=%d, handler ran %d x, broker acks PUBACK=%d PUBREC=%d PUBCOMP=%d", fl.name, budget, count[snref.REGISTER], count[snref.PUBLISH], count[snref.PUBREL], cbs, mqAcks[mqttref.PUBACK], mqAcks[mqttref.PUBREC], mqAcks[mqttref.PUBCOMP]))
 		r.Count("gateway_transmissions", len(gwOut))
 		r.Count("retransmissions_checked", len(gwOut)-len(first))
 		r.Count(budget, 1)
